@@ -138,6 +138,7 @@ class Exec:
         self.axioms = []
         self.vacuous = []          # vacuity guard: reasons why the proof would be empty
         self.ghost_at_hits = set()
+        self.unassumed_lemmas = set()      # names of cut lemmas that are checked but not used (see run.verify: refuted-lemma replay)
         self.feasible_paths = 0
         self.spec_funcs = {}
         self.havocked = []
@@ -312,6 +313,12 @@ class Exec:
         step for an arbitrary k (up: stmt(k) => stmt(k+1); down: stmt(k) => stmt(k-1)); the induction scheme itself is trusted.
         A proved lemma is available (as a quantified hypothesis) to the later lemmas and to the postconditions."""
         for lem in self.contract.lemmas:
+            if 'var' not in lem:
+                # plain cut lemma at the return point (no induction): proved from the path facts, then available
+                vc = self.emit(s, 'lemma:%s' % lem['name'], self.eval_spec(lem['stmt'], s), node, lem['stmt'])
+                if vc is None or vc.name not in self.unassumed_lemmas:
+                    s.assume(self.eval_spec(lem['stmt'], s, role='hyp'))
+                continue
             var, direction = lem['var'], lem.get('direction', 'up')
             lo = self.eval_spec_value(lem['lo'], s)
             hi = self.eval_spec_value(lem['hi'], s)
@@ -928,8 +935,9 @@ class Exec:
             if text.startswith('assert '):
                 # ghost assertion = cut lemma: proved here from the current path facts, available afterwards
                 body = text[7:]
-                self.emit(st, 'lemma', self.eval_spec(body, st), node, body)
-                st.assume(self.eval_spec(body, st, role='hyp'))
+                vc = self.emit(st, 'lemma', self.eval_spec(body, st), node, body)
+                if vc is None or vc.name not in self.unassumed_lemmas:
+                    st.assume(self.eval_spec(body, st, role='hyp'))
                 continue
             mod = ast.parse(text)
             self.spec_mode += 1
